@@ -56,6 +56,9 @@ class C03(HistoryProperty):
 
     def gen_case(self, rng, tier):
         cfg = gen.swarm_cfg(rng, on=("dsclass",))
+        cfg["labrea_keys"] = rng.random() < 0.4  # dictionaries that carry the reserved LABREA section (logging / effects switches)
+        if cfg["labrea_keys"]:
+            cfg["alloptions"] = True
         spec = gen.gen_spec(rng, cfg)
         if rng.random() < 0.2:
             # a Map over TWO keys whose target reads a caller option only where both take their non-first value: the keys of
